@@ -945,6 +945,66 @@ def rx_11(ctx, rep):
 # ---------------------------------------------------------------------------
 # TREE-8 : newline-capable token kinds map to line-counting leaf classes
 # ---------------------------------------------------------------------------
+def _fstring_delimiter_provenance(ctx):
+    """{'FSTRING_START': bool, 'FSTRING_END': bool}: is the text of every such token a key (resp. value) of the f-string
+    pattern map?  START: every construction is guarded by `<text> in <map>`.  END: the text is `<x>.<attr>` and every
+    FStringNode is constructed with `<map>[...]` as the value of that attribute."""
+    from ..facts import guards_of
+    TOKP = 'parso/python/tokenize.py'
+    out = {'FSTRING_START': True, 'FSTRING_END': True}
+    seen = {'FSTRING_START': 0, 'FSTRING_END': 0}
+    mod = ctx.prog.mod(TOKP)
+    quote_attrs = set()
+    for n in ast.walk(mod.tree):
+        if not (isinstance(n, ast.Call) and isinstance(n.func, ast.Name) and n.func.id == 'PythonToken' and len(n.args) >= 2):
+            continue
+        kind = norm(n.args[0]).split('.')[-1]
+        if kind == 'FSTRING_START':
+            seen[kind] += 1
+            text = norm(n.args[1])
+            ok = any(pol and isinstance(t, ast.Compare) and len(t.ops) == 1 and isinstance(t.ops[0], ast.In)
+                     and norm(t.left) == text and 'fstring_pattern_map' in norm(t.comparators[0])
+                     for t, pol in guards_of(n))
+            out[kind] = out[kind] and ok
+        elif kind == 'FSTRING_END':
+            seen[kind] += 1
+            a = n.args[1]
+            if isinstance(a, ast.Attribute) and isinstance(a.value, ast.Name):
+                quote_attrs.add(a.attr)
+            else:
+                out[kind] = False
+    if len(quote_attrs) != 1:
+        out['FSTRING_END'] = False
+    else:
+        (qa,) = quote_attrs
+        cls = mod.classes.get('FStringNode')
+        init = cls.methods.get('__init__') if cls is not None else None
+        param = None
+        if init is not None:
+            for st in walk_own(init.node):
+                if isinstance(st, ast.Assign) and norm(st.targets[0]) == 'self.%s' % qa and isinstance(st.value, ast.Name):
+                    param = st.value.id
+        stores = [st for st in ast.walk(mod.tree) if isinstance(st, ast.Assign) and any(
+            isinstance(t, ast.Attribute) and t.attr == qa for t in st.targets)]
+        if param is None or len(stores) != 1:
+            out['FSTRING_END'] = False
+        else:
+            idx = init.params().index(param) - 1
+            n_ctor = 0
+            for c in ast.walk(mod.tree):
+                if isinstance(c, ast.Call) and isinstance(c.func, ast.Name) and c.func.id == 'FStringNode':
+                    n_ctor += 1
+                    arg = c.args[idx] if idx < len(c.args) else next((k.value for k in c.keywords if k.arg == param), None)
+                    if not (isinstance(arg, ast.Subscript) and 'fstring_pattern_map' in norm(arg.value)):
+                        out['FSTRING_END'] = False
+            if not n_ctor:
+                out['FSTRING_END'] = False
+    for k in out:
+        if not seen[k]:
+            out[k] = False
+    return out
+
+
 def tree_8(ctx, rep):
     rep.rule('TREE-8', 'leaf classes with the single-line end_pos shortcut only receive token kinds whose value '
                        'language contains no line break')
@@ -968,6 +1028,17 @@ def tree_8(ctx, rep):
     lang['ENDMARKER'] = ''
     lang['NUMBER'] = env['Number']
     newline_capable = {'STRING', 'NEWLINE', 'FSTRING_STRING', 'ERRORTOKEN', 'FSTRING_START', 'FSTRING_END'}
+    # f-string delimiters: finite languages (keys / values of fstring_pattern_map) when the tokenizer shows that this is
+    # where their text comes from; otherwise they stay in the conservative set above
+    fmap = env.get('fstring_pattern_map')
+    if isinstance(fmap, dict) and fmap and all(isinstance(k, str) and isinstance(v, str) for k, v in fmap.items()):
+        prov = _fstring_delimiter_provenance(ctx)
+        if prov.get('FSTRING_START'):
+            lang['FSTRING_START'] = '(?:' + '|'.join(_re.escape(k) for k in sorted(fmap, key=len, reverse=True)) + ')'
+            newline_capable.discard('FSTRING_START')
+        if prov.get('FSTRING_END'):
+            lang['FSTRING_END'] = '(?:' + '|'.join(_re.escape(k) for k in sorted(set(fmap.values()), key=len, reverse=True)) + ')'
+            newline_capable.discard('FSTRING_END')
     mapping = {}
     for k, v in zip(leaf_map.keys, leaf_map.values):
         mapping[norm(k).split('.')[-1]] = prog.resolve_name_expr(parser.mod, v)
@@ -1256,3 +1327,92 @@ def rx_5d(ctx, rep):
     if not n_dec:
         raise AnalysisError('RX-5d: no call of python_bytes_to_unicode found in parso/grammar.py')
     rep.minimum('RX-5d', 2, 'file-reading sites and decoder calls')
+
+
+# ---------------------------------------------------------------------------------------------------------------
+# RX-12  a byte order mark is special only as the very first character
+_BOM_OK_METHODS = {'startswith'}
+_BOM_BAD_METHODS = {'find', 'rfind', 'index', 'rindex', 'count', 'replace', 'strip', 'lstrip', 'rstrip', 'split', 'rsplit',
+                    'partition', 'rpartition', 'endswith', 'removeprefix', 'removesuffix', 'translate'}
+
+
+def _bom_names(ctx):
+    """module rel -> names that hold the BOM character (module-level constants and imported aliases of them)."""
+    out = {}
+    for rel, mod in ctx.prog.mods.items():
+        names = set()
+        for name, vals in mod.globals.items():
+            for v in vals or []:
+                if v is None:
+                    continue
+                t = norm(v)
+                if t in ('BOM_UTF8.decode("utf-8")', "BOM_UTF8.decode('utf-8')", 'BOM_UTF8.decode()', "codecs.BOM_UTF8.decode('utf-8')") \
+                        or (isinstance(v, ast.Constant) and v.value == '\ufeff'):
+                    names.add(name)
+        out[rel] = names
+    # aliases: `x = other_bom_name` at module level, and from-imports
+    changed = True
+    while changed:
+        changed = False
+        for rel, mod in ctx.prog.mods.items():
+            for name, vals in mod.globals.items():
+                for v in vals or []:
+                    if isinstance(v, ast.Name) and v.id in out[rel] and name not in out[rel]:
+                        out[rel].add(name)
+                        changed = True
+            for st in mod.tree.body:
+                if isinstance(st, ast.ImportFrom) and st.module:
+                    src = st.module.replace('.', '/') + '.py'
+                    if src in out:
+                        for a in st.names:
+                            if a.name in out[src] and (a.asname or a.name) not in out[rel]:
+                                out[rel].add(a.asname or a.name)
+                                changed = True
+    return out
+
+
+def _is_bom(e, names):
+    return (isinstance(e, ast.Name) and e.id in names) or (isinstance(e, ast.Constant) and e.value == '\ufeff')
+
+
+def rx_12_sites(tree, names):
+    """[(node, ok, what)] for every place the BOM character is compared with / searched in text."""
+    out = []
+    for n in ast.walk(tree):
+        if isinstance(n, ast.Compare):
+            ops = list(zip(n.ops, [n.left] + n.comparators[:-1], n.comparators))
+            for op, l, r in ops:
+                if isinstance(op, (ast.In, ast.NotIn)) and _is_bom(l, names) and not isinstance(r, (ast.Tuple, ast.List, ast.Set, ast.Dict)):
+                    container_is_text = not (isinstance(r, ast.Name) and r.id.isupper())
+                    out.append((n, not container_is_text, 'membership test `%s`' % norm(n)))
+                elif isinstance(op, (ast.Eq, ast.NotEq)) and (_is_bom(l, names) or _is_bom(r, names)):
+                    out.append((n, True, 'whole-value comparison `%s`' % norm(n)))
+        elif isinstance(n, ast.Call) and isinstance(n.func, ast.Attribute) and any(_is_bom(a, names) for a in n.args):
+            if n.func.attr in _BOM_OK_METHODS:
+                out.append((n, True, '`%s`' % norm(n)))
+            elif n.func.attr in _BOM_BAD_METHODS:
+                out.append((n, False, '`%s`' % norm(n)))
+    return out
+
+
+def rx_12(ctx, rep):
+    rep.rule('RX-12', 'U+FEFF is a zero-width byte order mark only as the first character of the text: the BOM constant is '
+                      'compared with a whole value or tested with startswith(), never searched for inside text (`in`, find, '
+                      'count, replace, strip ...) - anywhere else the character occupies a column like any other')
+    names = _bom_names(ctx)
+    # the matcher itself, on a snippet that must be reported (the expected count on the tree is zero)
+    probe = ast.parse("def f(p):\n    if BOM in p:\n        return p.find(BOM)\n    return p.startswith(BOM)\n")
+    got = [(ok, what) for _, ok, what in rx_12_sites(probe, {'BOM'})]
+    if [ok for ok, _ in got].count(False) != 2 or [ok for ok, _ in got].count(True) != 1:
+        raise AnalysisError('RX-12: the matcher does not report its built-in example (%s)' % got)
+    n_sites = 0
+    for rel, mod in sorted(ctx.prog.mods.items()):
+        if not names.get(rel):
+            continue
+        for node, ok, what in rx_12_sites(mod.tree, names[rel]):
+            n_sites += 1
+            rep.ob('RX-12', rel, qual_of(mod, node), what, ok,
+                   'the BOM character is looked for anywhere in the text: a U+FEFF that is not the first character of the file '
+                   'has width one, treating it as zero-width shifts every column behind it')
+    rep.stat('rx12_bom_constants', sum(len(v) for v in names.values()))
+    rep.minimum('RX-12', 4)
